@@ -1,5 +1,6 @@
 import OrsoVerif.Lemmas.Cast
 import OrsoVerif.Lemmas.CastDecimal
+import OrsoVerif.Lemmas.CastJson
 import OrsoVerif.Props.C08
 /-!
 # C07 — Casting to a column type is exact on canonical renderings
@@ -9,6 +10,7 @@ every run), helper lemmas are in `Lemmas/Cast.lean`.  `float(text)` is a *parame
 model: the DOUBLE theorem is stated under the hypothesis that it inverts the float rendering
 (CPython's shortest-repr guarantee), which the harness samples on ≥ 10⁵ doubles per run.
 -/
+set_option linter.unusedSimpArgs false
 namespace C07
 open Cast
 
@@ -214,12 +216,16 @@ theorem temporal_text_roundtrip (dt : Iso.DateTime) (hv : Iso.validDateTime dt =
 /-- **The generated factory expressions** (`decimal.Context(prec=…)`, `safe_scale = …`,
 `Decimal(10) ** …`, lifted from `DecimalFactory.__call__` on this run) cover the statement: the
 context precision is the declared precision, every scale up to 28 is quantised to exactly that
-many places, rounding is half-even. -/
+many places, rounding is half-even; and the context is built inside the call (`contextScope`): one
+module-level context whose `prec` is assigned per call — state shared by every DECIMAL cast of the
+process, so that a cast can round with the precision another thread's cast has just stored — is
+recognised by the extractor and fails here. -/
 theorem factory_expressions : FactoryFacts where
   prec := by intro p; rfl
   scale := by intro s hs; unfold Gen.Cast.quantExp Gen.Cast.quantScale; omega
   rounding := by decide
   pad := by intro s; unfold Gen.Cast.padCount; omega
+  privateContext := by decide
 
 /-- **Decimals are exact whenever they fit.**  A finite decimal `(-1)^neg · c · 10^e` with at most
 `s ≤ 28` fractional digits (`-s ≤ e`) whose coefficient, rescaled to exponent `-s`, has at most `p`
@@ -354,6 +360,198 @@ theorem decimal_fallback_spec (p s : Nat) (hp : 1 ≤ p) (d : Dec) :
       (e < target → rescale c e target = roundQuot c (target - e).toNat)) :=
   ⟨factory_spec factory_expressions p s hp d, rescale_spec⟩
 
+/-- **The scalar parsers are the bare conversions** (shape lifted from `parse_integer` /
+`parse_double` on this run: `[if <test>: x = <fn>(x)]* return <fn>(x)`): no conversion is applied to
+the argument before `int(x)` / `float(x)` — a detour of some renderings through another type
+(`x = float(x)` for signed or padded text) appears here as a non-empty `integerPre`. -/
+theorem scalar_parser_bodies :
+    Gen.Cast.integerPre = [] ∧ Gen.Cast.integerConv = "int" ∧
+    Gen.Cast.doublePre = [] ∧ Gen.Cast.doubleConv = "float" := by decide
+
+/-- **A column default goes through the same cast** (anchor orso/schema.py:203-210; the guard and the
+cast expression are lifted from the source on this run): a truthy default — whatever its class, a
+value of a subclass of the column's class included (`isInst` arbitrary) — is replaced by the column
+type's cast of it, so by `result_class` it has the column type's class; a null default stays null.
+(Falsy defaults are not cast today — an observation the statement does not demand, so nothing is
+claimed about them.) -/
+theorem column_default_cast (fot : List Char → Option UInt64) (t : Ty) (isInst : Bool) :
+    Gen.Cast.defaultCast = "self.type.parse(self.default)" ∧
+    (∀ v : Val, v.falsy = false → columnDefault (parse fot t) isInst (some v) = parse fot t (some v)) ∧
+    (∀ v r : Val, v.falsy = false → columnDefault (parse fot t) isInst (some v) = .ok (some r) → r.cls = t.cls) ∧
+    columnDefault (parse fot t) isInst none = .ok none := by
+  have hg : ∀ v : Val, v.falsy = false →
+      Gen.Cast.defaultGuard ((!v.falsy) = true) ((some v).isNone = true) (isInst = true) := by
+    intro v hv; simp [Gen.Cast.defaultGuard, hv]
+  refine ⟨rfl, ?_, ?_, ?_⟩
+  · intro v hv
+    simp only [columnDefault]
+    rw [if_pos (hg v hv)]
+  · intro v r hv h
+    simp only [columnDefault] at h
+    rw [if_pos (hg v hv)] at h
+    rw [parse, parseVia_some null_guard] at h
+    cases hw : parseWith fot t v with
+    | error e => rw [hw] at h; cases h
+    | ok r' =>
+      rw [hw] at h
+      have : r' = r := by simpa [Except.bind, bind] using h
+      subst this
+      exact result_class fot t v r' hw
+  · have := parseVia_none null_guard (parseWith fot t)
+    simp only [columnDefault]
+    split
+    · exact this
+    · rfl
+
+open Cast.Json in
+/-- **The JSON text → elements step: reading inverts writing.**  For every JSON value of the subset
+arrays are rendered in (null, true/false, integers inside orjson's 64-bit range, floats, strings of
+any characters, arrays nested to any depth), written compactly (`orjson.dumps`) or with any JSON
+white space after `[`, after `,`, before `]` and around the document (`json.dumps`), the reader gives
+back exactly that value: every escape (`\"`, `\\`, `\b \f \n \r \t`, `\u00XX`) is undone, numbers
+keep their sign and every digit, nesting and order are kept.  For floats it ASSUMES exactly
+`FloatParam` (their rendering is a JSON number with a fraction or an exponent that `float()` reads
+back to the same finite double; sampled on every run for `repr` and `orjson.dumps`). -/
+theorem json_roundtrip (fot : List Char → Option UInt64) (rep : UInt64 → List Char) (w : Ws) (hwok : w.ok)
+    (v : J) (hw : Wf fot rep v) (pre post : List Char)
+    (hpre : ∀ c ∈ pre, isWs c = true) (hpost : ∀ c ∈ post, isWs c = true) :
+    readJson fot (pre ++ (render w rep v ++ post)) = .ok v ∧
+    Ws.compact.ok ∧ Ws.jsonDumps.ok :=
+  ⟨readJson_render' fot rep w hwok v hw pre post hpre hpost,
+   ⟨by simp [Ws.compact], by simp [Ws.compact], by simp [Ws.compact]⟩,
+   ⟨by simp [Ws.jsonDumps], by simp [Ws.jsonDumps, isWs], by simp [Ws.jsonDumps]⟩⟩
+
+open Cast.Json in
+/-- **JSON arrays element-wise, starting from the text** (`parse_array`: what is not a list, tuple or
+set is handed to `orjson.loads` — both lifted from the source on this run): casting the JSON text
+of an array, or the UTF-8 bytes of that text, is the element-wise cast (`parseArray`,
+`array_elementwise`) of the values it denotes — `null` as `None`, so nulls are kept in place — hence:
+same length, every element the element type's cast of the JSON value at its position, an error when
+one of them raises. -/
+theorem array_from_text (fot : List Char → Option UInt64) (rep : UInt64 → List Char) (w : Ws) (hwok : w.ok)
+    (xs : List J) (hw : WfL fot rep xs) (t : Ty) (pre post : List Char)
+    (hpre : ∀ c ∈ pre, isWs c = true) (hpost : ∀ c ∈ post, isWs c = true) :
+    (Gen.Cast.arrayNative = ["list", "tuple", "set"] ∧ Gen.Cast.arrayLoader = "orjson.loads") ∧
+    parseArrayText fot (some t) (.str (pre ++ (render w rep (.arr xs) ++ post)))
+      = some (parseArray fot (some t) (xs.map J.toVal)) ∧
+    parseArrayText fot (some t) (.bytes (String.ofList (pre ++ (render w rep (.arr xs) ++ post))).toUTF8.data.toList)
+      = some (parseArray fot (some t) (xs.map J.toVal)) ∧
+    (∀ rs, parseArrayText fot (some t) (.str (pre ++ (render w rep (.arr xs) ++ post))) = some (.ok rs) →
+      rs.length = xs.length ∧
+      ∀ i (h : i < xs.length) (h' : i < rs.length),
+        parse fot t (xs[i]).toVal = .ok rs[i] ∧ (xs[i] = .null → rs[i] = none)) := by
+  obtain ⟨h1, h2⟩ := parseArrayText_render fot rep w hwok xs hw (some t) pre post hpre hpost
+  refine ⟨⟨rfl, rfl⟩, h1, h2, ?_⟩
+  intro rs hrs
+  rw [h1] at hrs
+  have hrs' : parseArray fot (some t) (xs.map J.toVal) = .ok rs := by injection hrs
+  obtain ⟨hl, hi⟩ := parseArray_spec null_guard fot t _ rs hrs'
+  rw [List.length_map] at hl
+  refine ⟨hl, ?_⟩
+  intro i h h'
+  have := hi i (by rw [List.length_map]; exact h) h'
+  rw [List.getElem_map] at this
+  refine ⟨this.1, ?_⟩
+  intro hn
+  exact this.2 (by rw [hn]; rfl)
+
+open Cast.Json in
+/-- **Arrays of integers, booleans and text from their JSON text give back the values** (nulls kept):
+`[1,null,-3]` as `ARRAY<INTEGER>` is `[1, None, -3]`, etc.  `_partial`: integers are restricted to
+orjson's range `[-2^63, 2^64)`; beyond it the full statement ("integers of any size") is false of the
+code — `array_int_beyond_64bit_counterexample`, open finding C07-K01. -/
+theorem array_values_from_text_partial (fot : List Char → Option UInt64) (rep : UInt64 → List Char) (w : Ws) (hwok : w.ok) :
+    (∀ ns : List (Option Int), (∀ n, some n ∈ ns → -9223372036854775808 ≤ n ∧ n < 18446744073709551616) →
+      parseArrayText fot (some .integer) (.str (render w rep (.arr (ns.map fun o => match o with | none => J.null | some n => J.int n))))
+        = some (.ok (ns.map fun o => o.map Val.int))) ∧
+    (∀ bs : List (Option Bool),
+      parseArrayText fot (some .boolean) (.str (render w rep (.arr (bs.map fun o => match o with | none => J.null | some b => J.bool b))))
+        = some (.ok (bs.map fun o => o.map Val.bool))) ∧
+    (∀ ss : List (Option (List Char)),
+      parseArrayText fot (some (.varchar none)) (.str (render w rep (.arr (ss.map fun o => match o with | none => J.null | some s => J.str s))))
+        = some (.ok (ss.map fun o => o.map Val.str))) := by
+  have step : ∀ (t : Ty) (xs : List J) (want : Option Val → Option Val), WfL fot rep xs →
+      (∀ x ∈ xs.map J.toVal, parse fot t x = .ok (want x)) →
+      parseArrayText fot (some t) (.str (render w rep (.arr xs))) = some (.ok ((xs.map J.toVal).map want)) := by
+    intro t xs want hw hp
+    have := (parseArrayText_render fot rep w hwok xs hw (some t) [] [] (by simp) (by simp)).1
+    simp only [List.nil_append, List.append_nil] at this
+    rw [this, parseArray_pointwise fot t want _ hp]
+  have pn : ∀ t, parse fot t none = .ok none := fun t => parseVia_none null_guard _
+  refine ⟨?_, ?_, ?_⟩
+  · intro ns hr
+    have hw : WfL fot rep (ns.map fun o => match o with | none => J.null | some n => J.int n) := by
+      induction ns with
+      | nil => simp [WfL]
+      | cons a ns ih =>
+        refine ⟨?_, ih fun n hn => hr n (List.mem_cons_of_mem _ hn)⟩
+        cases a with
+        | none => simp [Wf]
+        | some n => simpa [Wf] using hr n (List.mem_cons_self ..)
+    rw [step .integer _ id hw]
+    · simp only [List.map_map, List.map_id]
+      congr 2
+      apply List.map_congr_left
+      intro o _; cases o <;> rfl
+    · intro x hx
+      simp only [List.map_map, List.mem_map, Function.comp] at hx
+      obtain ⟨o, _, rfl⟩ := hx
+      cases o with
+      | none => exact pn _
+      | some n => simp only [J.toVal, parse, parseVia_some null_guard, dispatch_table]; rfl
+  · intro bs
+    have hw : WfL fot rep (bs.map fun o => match o with | none => J.null | some b => J.bool b) := by
+      induction bs with
+      | nil => simp [WfL]
+      | cons a bs ih => exact ⟨by cases a <;> simp [Wf], ih⟩
+    rw [step .boolean _ id hw]
+    · simp only [List.map_map, List.map_id]
+      congr 2
+      apply List.map_congr_left
+      intro o _; cases o <;> rfl
+    · intro x hx
+      simp only [List.map_map, List.mem_map, Function.comp] at hx
+      obtain ⟨o, _, rfl⟩ := hx
+      cases o with
+      | none => exact pn _
+      | some b =>
+        simp only [J.toVal, parse, parseVia_some null_guard, dispatch_table, id]
+        rw [(bool_roundtrip.2.2.2 b).1]; rfl
+  · intro ss
+    have hw : WfL fot rep (ss.map fun o => match o with | none => J.null | some s => J.str s) := by
+      induction ss with
+      | nil => simp [WfL]
+      | cons a ss ih => exact ⟨by cases a <;> simp [Wf], ih⟩
+    rw [step (.varchar none) _ id hw]
+    · simp only [List.map_map, List.map_id]
+      congr 2
+      apply List.map_congr_left
+      intro o _; cases o <;> rfl
+    · intro x hx
+      simp only [List.map_map, List.mem_map, Function.comp] at hx
+      obtain ⟨o, _, rfl⟩ := hx
+      cases o with
+      | none => exact pn _
+      | some s => simp only [J.toVal, parse, parseVia_some null_guard, dispatch_table]; rfl
+
+open Cast.Json in
+/-- **Counterexample to "integers of any size" inside JSON arrays** (open finding C07-K01, the model
+is faithful to the code): an integer token beyond 64 bits is read as a double, so — with
+`float("18446744073709551617") = 2^64`, IEEE round-to-nearest — the `ARRAY<INTEGER>` cast of
+`[18446744073709551617]` is `[18446744073709551616]`. -/
+theorem array_int_beyond_64bit_counterexample (fot : List Char → Option UInt64)
+    (h : fot "18446744073709551617".toList = some 0x43F0000000000000) :
+    parseArrayText fot (some .integer) (.str "[18446744073709551617]".toList)
+      = some (.ok [some (.int 18446744073709551616)]) := by
+  have hv := numValue_through_float fot "18446744073709551617".toList 0x43F0000000000000 (by decide) (by decide) h (by decide)
+  have hr := readJson_single_number fot "18446744073709551617".toList _ ⟨'1', "8446744073709551617".toList, by decide, Or.inr (by decide)⟩
+    (by decide) hv
+  have e : "[18446744073709551617]".toList = '[' :: ("18446744073709551617".toList ++ [']']) := by decide
+  rw [e]
+  simp only [parseArrayText, loadElements, hr, elementsOf, Option.map_some, Cast.bind_ok, List.map_cons, List.map_nil, J.toVal,
+    parseArray, parse, parseVia_some null_guard, dispatch_table]
+  decide
+
 /-! Non-vacuity (concrete inputs through the whole text path, including rounding and the fallback). -/
 
 example : parseDecimal (some 5) (some 2) (.str "123.45".toList) = .ok (.dec (.fin false 12345 (-2))) := by decide
@@ -378,6 +576,18 @@ example : parseArray (fun _ => none) (some .integer) [some (.str "12".toList), n
 example : String.ofList (renderDec (.fin true 15 (-1))) = "-1.5" ∧ String.ofList (renderDec (.fin false 1 2)) = "1E+2"
     ∧ String.ofList (renderDec (.fin false 12 (-9))) = "1.2E-8" ∧ String.ofList (renderDec (.fin false 5 (-6))) = "0.000005" := by
   decide
+/-- the JSON text path: white space, nulls, escapes and a surrogate pair, nested arrays, malformed text, scalars, objects -/
+example : Json.parseArrayText (fun _ => none) (some .integer) (.str " [1, null ,\"-12\" ]\n".toList)
+    = some (.ok [some (.int 1), none, some (.int (-12))]) := by decide
+example : Json.parseArrayText (fun _ => none) (some (.varchar (some 2))) (.str "[\"a\\n\\u00e9z\",\"\\ud83d\\ude00\"]".toList)
+    = some (.ok [some (.str ['a', '\n']), some (.str [Char.ofNat 0x1F600])]) := by decide
+example : Json.parseArrayText (fun _ => none) none (.str "[[1],true]".toList) = some (.ok [some .other, some (.bool true)]) := by decide
+example : Json.parseArrayText (fun _ => none) (some .integer) (.str "[1,]".toList) = some (.error .valueError) := by decide
+example : Json.parseArrayText (fun _ => none) (some .integer) (.str "[01]".toList) = some (.error .valueError) := by decide
+example : Json.parseArrayText (fun _ => none) (some .integer) (.str "5".toList) = some (.error .typeError) := by decide
+example : Json.parseArrayText (fun _ => none) (some .integer) (.str "{}".toList) = none := by decide
+example : String.ofList (Json.render Json.Ws.jsonDumps (fun _ => []) (.arr [.int (-1), .null, .str ['"', Char.ofNat 1], .arr []]))
+    = "[-1, null, \"\\\"\\u0001\", []]" := by decide
 example : parseInteger (.str " -12_000 ".toList) = .ok (.int (-12000)) := by decide
 example : parseVarchar (some 3) (.str "héllo".toList) = .ok (.str "hél".toList) := by decide
 
